@@ -68,8 +68,9 @@ def objdef_repr(d) -> str:
         return f'LabObjPlain(x={py_repr(kw["x"])})'
     if name == 'LabObjVar':
         # `**options` is a constructor argument like any other: the mapping (in the order the options were written) is part of the text
-        opts = {k: x for k, x in kw.items() if k != 'a'}
-        return f'LabObjVar(a={py_repr(kw["a"])}, options={py_repr(opts)})'
+        opts = {k: x for k, x in kw.items() if k not in ('a', 'shape')}
+        shape = kw['shape'] if 'shape' in kw else (4, 3)       # the default is a TUPLE: `shape=(4, 3)`; a configured list reads `shape=[4, 3]`
+        return f'LabObjVar(a={py_repr(kw["a"])}, options={py_repr(opts)}, shape={py_repr(shape)})'
     if name == 'LabObjDerived':
         return f'LabObjDerived(root={py_repr(kw["root"])})'      # the raw argument (kept in `_root`), never the derived public attribute
     if name == 'LabChainObj':
